@@ -200,6 +200,7 @@ struct Out
     char cur_op[48] = "";
     char cur_pre[64] = "";
     char cur_x[160] = "";
+    std::string focus;  // property under check: violations owned only by other properties do not cut the case
     const char* extra_props = "";  // appended to the owners of every violation (the fault engine: everything is C17's)
 };
 
@@ -239,11 +240,28 @@ inline void set_ctx(int64_t case_no, int64_t step, const char* op, const char* p
 }
 
 // A monitor found the property violated (or, with props of other properties, a cross-note for the property under check).
+// Raised while harness code runs inside a library call (allocator, value-type callbacks, reporter): its own use of
+// operator new must not be mistaken for the library bypassing the allocator (C07).
+struct HarnessScope
+{
+    static int& depth()
+    {
+        static int d = 0;
+        return d;
+    }
+    HarnessScope() { ++depth(); }
+    ~HarnessScope() { --depth(); }
+};
+
 // soft: the observation does not make the state suspect (e.g. a footprint that is too large); the case goes on
 inline void violation(const char* props, const char* kind, const std::string& detail, const char* op = "",
                       const char* prestate = "", bool soft = false)
 {
+    HarnessScope hs;
     Out& o = out();
+    // the check for one property keeps going after another property's monitor fired (the same defect often violates
+    // several properties, and this one's evidence may only come later); deaths still end the case
+    if (!soft && !o.focus.empty() && !strstr(props, o.focus.c_str()) && !(o.extra_props[0] && o.focus == o.extra_props)) soft = true;
     if (soft)
     {
         if (++o.soft_in_case > 4) return;
@@ -331,6 +349,7 @@ struct Args
 inline void open_out(const Args& a)
 {
     if (a.has("out-fd")) out().fd = static_cast<int>(a.num("out-fd", 1));
+    out().focus = a.str("focus", "");
     out().verbose = a.has("verbose");
     install_death_handlers();
 }
